@@ -78,6 +78,11 @@ def handle (rep : Report) (ln : Nat) (toks : List String) (obs : String) : Repor
         let oa := obs.splitOn " "
         let rep := if oa.contains "mutated=0" && oa.contains "aliased=0" then rep else fail rep ln "no_mutation_no_alias"
         let rep := if oa.contains "second=same" then rep else fail rep ln "first_update_wins"
+        -- the effective configuration, the method table and the detection switch are the property itself:
+        -- a difference is a violation with this line as its failing input, not just a broken tie
+        let rep := if obs.startsWith (canonCfg e ++ " tbl=") then rep else fail rep ln "effective_config"
+        let rep := if oa.contains s!"tbl={tableStr e}" then rep else fail rep ln "method_table"
+        let rep := if oa.contains s!"det={if detection e then 1 else 0}" then rep else fail rep ln "detection_switch"
         if mine == obs then rep else { rep.msg s!"DIVERGE line={ln} model={mine} impl={obs}" with diverged := rep.diverged + 1 }
     | _ => rep.msg s!"BAD line={ln}"
 
